@@ -27,14 +27,28 @@ class C47(core.Prop):
             if log2.wall_exceeded:
                 raise core.Inconclusive()
             if log2.done:
-                oc.bad("run-crashes-only-with-tracing", "the program completes without tracing; with tracing: " + log.crash_text())
+                import re
+                why = "signal-%d" % -log.rc if log.rc < 0 else "rc-%d" % log.rc
+                for l in log.err.splitlines():
+                    m = re.match(r"^\[\s*[\d.]+\] \[[^\]]*\] (.*)$", l)
+                    if m and not m.group(1).startswith(("Configuration change", "Oops! Deadlock", " - pid", "Current backtrace")) \
+                            and "still active, awaiting" not in m.group(1) and not m.group(1).lstrip().startswith("#"):
+                        why = re.sub(r"[^a-z]+", "-", re.sub(r"name \S+", "name", m.group(1).lower())).strip("-")[:50]
+                oc.bad("run-crashes-only-with-tracing:" + why + (":after-deadlock" if log.of("deadlock") else ""),
+                       "the program completes without tracing; with tracing: " + log.crash_text())
             else:
                 oc.invalid = True          # the program itself does not complete: not a matter of tracing
                 oc.info = {"crash": log.crash_text()[-300:]}
             return oc
         bad, stats = paje.validate(text)
         seen = set()
-        for sig, msg in bad:
+        finished = {l["a"] for l in log.of("body_end")}
+        for sig, msg, container in bad:
+            if "state-left-pushed" in sig and not sig.startswith("host-change:") and container is not None and container.rsplit("-", 1)[0] not in finished:
+                # an actor that was killed (kill, end of the simulation for a daemon, deadlock) while sleeping / computing / communicating never
+                # pops that state: its container goes away with it (tolerated: the statement is about what a running entity does)
+                labels.add("killed-in-a-state")
+                continue
             if sig not in seen:
                 seen.add(sig)
                 oc.bad(sig, msg)
